@@ -169,6 +169,21 @@ def domain_choices(nodes, max_z=2):
     return out
 
 
+def deep_jobs(t, to):
+    """5- and 6-node inputs on which TRSO reaches lines 9/10 (inputs only, diversified by the sequence of line helpers
+    that fired when the corpus was generated: tools/gen_corpus_trso.py).  Quick: every third case."""
+    import json
+    from pathlib import Path
+
+    f = Path(__file__).resolve().parent.parent / "data" / "trso_deep.json"
+    if not f.exists():
+        return []
+    cases = json.loads(f.read_text())["cases"]
+    if t == "quick":
+        cases = cases[seed() % 3 :: 3]
+    return [(GSpec.from_json(c["g"]), [(c["X"], c["Y"], [tuple(d) for d in c["domains"]])], to, "diag") for c in cases]
+
+
 def jobs_for(t):
     jobs = []
     to = TIMEOUT_MS[t]
@@ -195,6 +210,7 @@ def jobs_for(t):
                 if i % stride == offset % stride:
                     yield X, Y, [d1, d2]
 
+    jobs += deep_jobs(t, to)
     if t == "quick":
         for g in family(2, labellings=("fwd",)):
             add(g, one_domain(g), "all")
@@ -227,6 +243,7 @@ def run() -> int:
         "returned Expression -> z3 polynomial terms over a multi-domain family of SCMs (vf/sem/l2.py with per-domain tables)",
     ]
     rep.bounds = {
+        "deep_corpus": "5- and 6-node inputs (1-2 source domains, |Z_i|, |W_i| <= 2, insertion order shuffled) on which TRSO reaches line 9 or line 10, up to 3 per distinct sequence of fired line helpers (vf/data/trso_deep.json, inputs only); quick: every third case, thorough: all; all-equal value assignments",
         "graphs": "quick: ADMGs <=2 nodes (all one-domain inputs), 3 nodes (1/3 of the one-domain inputs, 1/13 of the two-domain inputs), front-door / bow / IV / napkin / fig.3 curated; thorough: all ADMGs on 3 nodes under two labellings (all one-domain inputs, 1/3 two-domain), 1/8 of the 4-node classes, curated 4-node graphs",
         "domains": "1-2 source domains, experiment set Z_i of <=2 (1) variables possibly empty, non-empty surrogate-outcome set W_i disjoint from Z_i",
         "models": "families of positive binary SCMs with one binary latent per bidirected edge: every table and every latent prior is shared with the target except the tables of the nodes that the library's own selection diagram (get_nodes_to_transport) marks for that domain, which are independent parameters",
